@@ -161,6 +161,12 @@ pub fn final_check(s: &In) -> Result<(), Violation> {
             return Err(viol(s, "quota-wrong-code", format!("receive_max={max_n}"), format!("receive maximum exceeded but no DISCONNECT 0x93 was written (stops {stops:?})")));
         }
     }
+    // every packet of these histories is valid and every handler succeeds: the only thing that may end the
+    // connection is the v5 receive-maximum rule. Anything else - e.g. a keep-alive timeout while reading was
+    // paused by the limits - means packets the peer sent are never handled (seeded change C12_r6)
+    if !stops.is_empty() && !quota {
+        return Err(viol(s, "connection-ended", format!("max_receive={max_n}"), format!("a peer that sent valid packets only and stayed within the limits was disconnected: {stops:?}")));
+    }
     // liveness: all gates were opened by the drain; on a healthy connection every complete publish was handled
     if healthy(s) {
         let hs = handler_records(s);
@@ -206,6 +212,11 @@ pub fn configs(tier: Tier) -> Vec<InCfg> {
                 ep.min_chunk_size = 4;
                 if ver == Ver::V5 && role == Role::Server {
                     ep.hs_receive_max = if n == 0 { None } else { Some(n) };
+                }
+                // one configuration per role with a keep-alive of 2 s: in the drain phase several keep-alive periods
+                // pass while gated handlers keep the window shut
+                if n == 1 && sz == 65535 {
+                    ep.client_keepalive = 2;
                 }
                 let mut alphabet = vec![q(1, 5), q(1, 14), q(0, 5), T::PubSplit { qos: 1, id: 0, len: 12 }, q(2, 26)];
                 if sz == 30 {
